@@ -14,6 +14,7 @@ writes (buffer):  `wbool 0|1` `wu8 n` `wu16 n` `wi16 n` `wu32 n` `wi32 n` `wu64 
                   `wvu32 n` `wvi32 n` `wstr <hex>` `wlstr <limit> <hex>` `wraw <hex>`   → `ok len=<n>` | `err:sizeLimit len=<n>`
 reads (buffer or stream): `rbool` `ru8` `ru16` `ri16` `ru32` `ri32` `ru64` `ri64` `rf64` `rstr` `rlstr <limit>` `read <n>` `readn <n>` `zreadn <n>`
                   and, buffer only, `rvu64` `rvi64` `rvu32` `rvi32`          → `v=<value> len|left=<n>` | `err:<e> len|left=<n>`
+`feed <chunks>` (stream): more bytes arrive on the source, behind what it still holds → `ok left=<n>`
 `recheck` (buffer or stream): the raw values handed out so far, again → `recheck=<v>,<v>,…` | `recheck=.`
 `sentinels` (any state) → texts of the three sentinel errors and `distinct=true`
 `bigrt <str|raw|lstr> <seed> <n> <buf|s<chunk>>` (initialising; 2^20 < n ≤ 2^27) → `v=#<n>:<digest> next=7 left=0`
@@ -266,7 +267,7 @@ def step (st : St) (line : String) : St × String :=
           match ws with
           | ["bytes"] => (st, "bytes=" ++ showHex bs)
           | ["len"] => (st, s!"len={bs.length}")
-          | ["reset"] => (.buf [], "ok len=0")
+          | ["reset"] => (.buf (reset bs), s!"ok len={(reset bs).length}")
           | ["rewriteself", p, a, b] =>
             match parseCount p, parseDec a, parseDec b with
             | some p, some a, some b =>
@@ -296,6 +297,12 @@ def step (st : St) (line : String) : St × String :=
             | _, _ => (st, "bad-op")
           | _ => (st, "bad-op")
     | .stream s =>
+      match ws with
+      | ["feed", cs] =>
+        match parseChunks cs with
+        | some cs => let s' := s.feed cs; (.stream s', s!"ok left={s'.flat.length}")
+        | none => (st, "bad-op")
+      | _ =>
       match (match ws with
              | ["xrstr"] => some Ty.str
              | ["xrlstr", l] => (parseU 32 l).map (fun l => Ty.lstr (UInt32.ofNat l))
